@@ -43,6 +43,7 @@ UNITS = {
     "cm": (F(1, 100), (F(1), F(0), F(0))),
     "mm": (F(1, 1000), (F(1), F(0), F(0))),
     "km": (F(1000), (F(1), F(0), F(0))),
+    "nm": (F(1, 10 ** 9), (F(1), F(0), F(0))),
     "s": (F(1), (F(0), F(1), F(0))),
     "kg": (F(1), None),                       # only used by template nodes (never in arithmetic)
     "[len]": (F(2), (F(1), F(0), F(0))),
@@ -53,6 +54,28 @@ UNITS = {
 }
 NODIM = (F(0), F(0), F(0))
 ANGLE = (F(0), F(0), F(1))
+
+
+class custom_units:
+    """`with custom_units({"[len]": ("5", "m")}):` - inside the block the custom unit symbols have the given
+    definitions (number text, unit of the alphabet) instead of those of the fixed environment; used for sequences of
+    documents that define the same symbol differently"""
+
+    def __init__(self, defs):
+        self.defs = {sym: (F(num) * UNITS[unit][0], UNITS[unit][1]) for sym, (num, unit) in defs.items()}
+
+    def __enter__(self):
+        self.old = {sym: UNITS.get(sym) for sym in self.defs}
+        UNITS.update(self.defs)
+        return self
+
+    def __exit__(self, *exc):
+        for sym, v in self.old.items():
+            if v is None:
+                UNITS.pop(sym, None)
+            else:
+                UNITS[sym] = v
+        return False
 
 
 def si_unit(dims):
@@ -276,7 +299,7 @@ def unit_factor(unit):
     import re
     fac = F(1)
     for part in unit.split("*"):
-        m = re.fullmatch(r"(\[len\]|\[hand\]|cm|mm|m|s)(-?\d+)?", part)
+        m = re.fullmatch(r"(\[len\]|\[hand\]|cm|mm|nm|km|m|s)(-?\d+)?", part)
         if not m:
             raise ValueError(unit)
         fac *= UNITS[m.group(1)][0] ** int(m.group(2) or 1)
